@@ -41,14 +41,14 @@ Definition chk_day (y m d : Z) : bool :=
   else true.
 Definition chk_year (y : Z) : bool := forall_from (fun m => forall_from (chk_day y m) 31 1) 12 1.
 Lemma sweep_dates : forall_from chk_year 400 1 = true.
-Proof. vm_compute. reflexivity. Qed.
+Proof. vm_cast_no_check (eq_refl true). Qed.
 Lemma cycle_of_date y m d : 1 <= y <= 400 -> 1 <= m <= 12 -> 1 <= d <= days_in_month y m ->
   0 <= ymd2ord y m d - 1 < DI400Y /\ ord2ymd_cycle (ymd2ord y m d - 1) = (y, m, d).
 Proof.
   intros Hy Hm Hd.
   pose proof (forall_from_spec _ _ _ sweep_dates y ltac:(lia)) as Y. unfold chk_year in Y.
   pose proof (forall_from_spec _ _ _ Y m ltac:(lia)) as M. cbv beta in M.
-  assert (D31 : days_in_month y m <= 31) by (unfold days_in_month; repeat destruct (_ : bool); lia).
+  assert (D31 : days_in_month y m <= 31) by (unfold days_in_month; destruct (m =? 2); [destruct (is_leap y)|destruct ((m =? 4) || (m =? 6) || (m =? 9) || (m =? 11))]; lia).
   pose proof (forall_from_spec _ _ _ M d ltac:(lia)) as D. unfold chk_day in D.
   destruct (d <=? days_in_month y m) eqn:E; [|lia].
   apply andb_true_iff in D as [D D3]. apply andb_true_iff in D as [D1 D2].
@@ -63,7 +63,7 @@ Definition chk_ord (r : Z) : bool :=
   (1 <=? y) && (y <=? 400) && (1 <=? m) && (m <=? 12) && (1 <=? d) && (d <=? days_in_month y m)
   && (ymd2ord y m d =? r + 1).
 Lemma sweep_ords : forall_from chk_ord (Z.to_nat 146097) 0 = true.
-Proof. vm_compute. reflexivity. Qed.
+Proof. vm_cast_no_check (eq_refl true). Qed.
 Lemma date_of_cycle r : 0 <= r < DI400Y ->
   let '(y, m, d) := ord2ymd_cycle r in
   1 <= y <= 400 /\ 1 <= m <= 12 /\ 1 <= d <= days_in_month y m /\ ymd2ord y m d = r + 1.
